@@ -27,6 +27,7 @@ var propPkgs = map[string][]string{
 	"C14": {"./internal/query"},
 	"C03": {"./internal/query"},
 	"C02": {"./internal/index"},
+	"C11": {"./internal/index/manager"},
 }
 
 type Finding struct {
